@@ -2229,8 +2229,10 @@ class ParameterModelMapper(
         """Creates a numpy record ndarray with a field for each local source
         parameter name and parameter's value. In addition each parameter field
         ``<name>`` has a field named ``<<name>:gpidx>`` which holds the index
-        plus one of the corresponding global parameter for each source value.
-        For values mapping to fixed parameters, the index is negative. Local
+        plus one of the corresponding global floating parameter, i.e. the ID of
+        the global fit parameter plus one, for each source value.
+        For values mapping to fixed parameters, the field holds the negative
+        value of the index plus one of the global parameter. Local
         parameter values that do not apply to a particular source are set to
         NaN. The parameter index in such cases is undefined.
         In addition to the parameter fields, the field ``:model_idx`` holds the
@@ -2265,9 +2267,9 @@ class ParameterModelMapper(
                     Not all local parameters apply to all sources.
                     Example: "gamma".
                 <name>:gpidx
-                    The field holding the global parameter index plus one for
-                    the local parameter <name>. Example: "gamma:gpidx". Indices
-                    for values mapping to fixed parameters are negative.
+                    The field holding the global floating parameter index plus
+                    one for the local parameter <name>. Example: "gamma:gpidx".
+                    Indices for values mapping to fixed parameters are negative.
         """
         if gflp_values is None:
             gflp_values = np.full((self.n_global_floating_params,), np.nan)
@@ -2331,10 +2333,15 @@ class ParameterModelMapper(
                     src_gp_mask[gfxp_mask]]
             ))
 
-            # Create the array of the global parameter indices.
+            # Create the array of the global parameter indices. Floating
+            # parameters are referenced by their index within the set of
+            # global floating parameters, i.e. by the ID of the global fit
+            # parameter, because that is what the values of the
+            # ``<name>:gpidx`` field get compared with.
             gpidxs = np.arange(len(_global_paramset))
+            gflpidxs = np.cumsum(gflp_mask) - 1
             model_gp_idxs = np.concatenate((
-                gpidxs[gflp_mask & src_gp_mask] + 1,
+                gflpidxs[gflp_mask & src_gp_mask] + 1,
                 -gpidxs[gfxp_mask & src_gp_mask] - 1,
             ))
 
